@@ -375,11 +375,15 @@ Section RxLoop.
     rx_loop (S (length (snd st ++ chunk))) (fst st) (snd st ++ chunk).
 End RxLoop.
 
-(** The logging handler: state = ([_in_conn], frames acted on so far);
-    [_in_conn] is set by the first frame handled (the contact header). *)
+(** The logging handler: state = ([_in_conn], frames acted on so far).
+    As in [Messenger.recv_message], [_in_conn] is set when a contact header
+    with the right magic and version 4 is handled (any other contact header
+    closes the connection and leaves the receiver in the contact phase). *)
+Definition contact_ok (c : contact) : bool := bytes_eqb (ch_magic c) MAGIC && (ch_version c =? 4).
 Definition log_state := (bool * list frame)%type.
 Definition log_phase (s : log_state) : bool := fst s.
-Definition log_handle (s : log_state) (f : frame) : log_state := (true, snd s ++ [f]).
+Definition log_handle (s : log_state) (f : frame) : log_state :=
+  (match f with FContact c => fst s || contact_ok c | FMsg _ => fst s end, snd s ++ [f]).
 Definition rx_log_recv := rx_recv log_state log_phase log_handle.
 Definition rx_init : log_state * bytes := ((false, []), []).
 
